@@ -1,6 +1,7 @@
 //! `qv`: drivers that run the real quandary code and record what it did as
 //! ND-JSON for validation against the TLA+ specification by TLC.
 
+mod catalog_drv;
 mod codes_drv;
 mod common;
 mod gen;
@@ -27,6 +28,7 @@ fn main() {
         "tsiglib" => tsiglib_drv::main(&args[1..]),
         "names" => names_drv::main(&args[1..]),
         "zone" => zone_drv::main(&args[1..]),
+        "catalog" => catalog_drv::main(&args[1..]),
         d => {
             eprintln!("unknown driver {}", d);
             std::process::exit(2);
